@@ -1746,7 +1746,7 @@ class DiameterRequest(DiameterMessage):
                  header: DiameterHeader = None,
                  avps: List[DiameterAVP] = None) -> None:
 
-        if header:
+        if header is not None:
             _header = DiameterHeader(version=header.version,
                                      command_code=header.command_code,
                                      application_id=header.application_id,
@@ -1819,7 +1819,7 @@ class DiameterAnswer(DiameterMessage):
                  header: DiameterHeader = None,
                  avps: List[DiameterAVP] = None) -> None:
 
-        if header:
+        if header is not None:
             _header = DiameterHeader(version=header.version,
                                      command_code=header.command_code,
                                      application_id=header.application_id,
